@@ -63,3 +63,16 @@ func debugTf(run *Run, replay string) {
 		}
 	}
 }
+
+func init() { props["debug-tokens"] = debugTokens }
+
+func debugTokens(run *Run, replay string) {
+	for _, src := range []string{"# c\nvariable \"a\" {\n}\n", "/* c */\nvariable \"a\" {\n}\n", "\n\nvariable \"a\" {\n}\n", "/* c */ variable \"a\" {\n}\n"} {
+		w := newWorld()
+		pd := w.AddPath("root", tfSchema(), map[string]string{"main.tf": src}, nil)
+		d, _ := w.Dec.Path(pd.Path)
+		t, err := d.SemanticTokensInFile(context.Background(), "main.tf")
+		b := pd.Ctx.Files["main.tf"].Body.(*hclsyntax.Body)
+		fmt.Printf("%q body=%v tokens=%d err=%v\n", src, b.Range(), len(t), err)
+	}
+}
